@@ -14,7 +14,8 @@ def check_c14(ctx):
         scn.append({"id": i + 1, "apps": ["A", "B", "C", "D", "E"], "calls": sorted(g["calls"]), "listed": sorted(g["listed"]),
                     "excl": sorted(g["excl"]), "pass": sorted(g["pass"]), "view": g["view"],
                     "views": [{"listed": sorted(g["listed2"]), "excl": sorted(set(g["excl2"]) - set(g["listed2"])),
-                               "pass": sorted(g["pass2"])}] if i % 2 == 0 else []})
+                               "pass": sorted(g["pass2"])}] if i % 2 == 0 else [],
+                    "mermaid": i % 3 == 0})
     events, _ = core.vh_sharded(ctx, "ints", scn, timeout=3000, resilient=True)
     prints, nev, _ = core.validate(ctx, "IntsTrace", "IntsTrace.cfg", events, chunk=40000)
     by_id = {s["id"]: s for s in scn}
@@ -23,7 +24,14 @@ def check_c14(ctx):
     for s in scn:
         if _pass_cycle(s):
             cyc += 1
+    nmer = sum(1 for e in events if e["e"] == "mermaid")
     for kind, p in prints:
+        if kind == "EXTRA":
+            s0 = by_id[p["t"] // 10]
+            w = p["what"]
+            core.add_extra(ctx, "mermaid-integration/%s/%s" % (w["kind"], "+".join(sorted(w["bad"]))),
+                           "calls=%s: %s" % (s0["calls"], [e for e in evs.get(p["t"], []) if e["e"] == "mermaid"][:2]))
+            continue
         s = dict(by_id[p["t"] // 10])
         if p["t"] % 10 > 0:
             v = s["views"][p["t"] % 10 - 1]
@@ -42,7 +50,7 @@ def check_c14(ctx):
         core.add_violation(ctx, sig, what, {"family": "ints", "scenario": s})
     shapes = {json.dumps([s[k] for k in ("calls", "listed", "excl", "pass", "view")]) for s in scn}
     cov = {"states": mc.distinct, "transitions": mc.generated, "traces_validated_against_impl": len(scn),
-           "distinct_models": len(shapes), "models_with_passthrough_cycle": cyc,
+           "distinct_models": len(shapes), "models_with_passthrough_cycle": cyc, "mermaid_diagrams_judged": nmer,
            "samples": [scn[0], scn[-1]] if scn else []}
     return core.finish(ctx, "model_checking", cov, [
         "one endpoint per application, calls at top level and nested in if / for each / one of / until / group; 5 applications",
